@@ -84,7 +84,7 @@ def run_program(sc, hooks=(), tr=None, on_build=None, stop_after=None):
                     known_actions[uid] = {"name": name, "finished_sent": False, "k": k}
                     mode = "normal"
                     if enabled:
-                        mode = cd.weighted([("normal", 6)] + [(f, 1.5) for f in sorted(enabled) if f in ("never", "dup", "early", "late", "no_started")], "amode", k)
+                        mode = cd.weighted([("normal", 6)] + [(f, 1.5 * sc.get("client", {}).get("fault_bias", 1)) for f in sorted(enabled) if f in ("never", "dup", "early", "late", "no_started", "started_late")], "amode", k)
                     res.action_faults[mode] = res.action_faults.get(mode, 0) + 1
                     d1 = cd.choice(ACT_DELAY, "d1", k)
                     d2 = d1 + cd.choice(ACT_DELAY, "d2", k)
@@ -106,6 +106,9 @@ def run_program(sc, hooks=(), tr=None, on_build=None, stop_after=None):
                     elif mode == "early":
                         client.schedule(d1, fin, ("finished-early", uid))
                         client.schedule(d2, sta, ("started-late", uid))
+                    elif mode == "started_late":
+                        # Started arrives long after the start (possibly after a Stop), and no Finished ever
+                        client.schedule(d1 + 6.0, sta, ("started-late", uid))
                     elif mode == "late":
                         client.schedule(d1, sta, ("started", uid))
                         client.schedule(d2 + 30.0, fin, ("finished-late", uid))
